@@ -146,6 +146,18 @@ def handle (op : String) (args : List String) : Option String :=
            | .error e => "err:" ++ e.family)
           (toString (Spec.Script.numDecode b))
       | none => badArgs
+  | "c08.opn.enc", [z] => some <| match parseInt? z with
+      | some z => showResNat (encodeOpN z)
+      | none => badArgs
+  | "c08.opn.dec", [n] => some <| match parseNat? n with
+      | some n => if n < 256 then showResNat (decodeOpN n) ++ " " ++ bit (isSmallInt n) else badArgs
+      | none => badArgs
+  | "c08.mpi2bn", [hex] => some <| match parseHex? hex with
+      | some b => (match mpi2bn b with
+           | .ok (some z) => toString z
+           | .ok none => "none"
+           | .error e => "err:" ++ e.family)
+      | none => badArgs
   | "c08.minimal", [hex] => some <| match parseHex? hex with
       | some b => bit (decide (Spec.Script.minimal b))
       | none => badArgs
